@@ -198,6 +198,36 @@ func runC20(r *core.Run) int {
 		} else {
 			root = g.Alt(g.P.Depth)
 		}
+		// some classes get a WIDE range (hundreds of code points) around a pair letter: case
+		// equivalents of every cased rune inside must still be found, letter or not
+		root.Walk(func(n *gen.Node) {
+			if n.K != gen.KClass || rng.Intn(5) != 0 {
+				return
+			}
+			i := rng.Intn(len(gen.PairLower))
+			L := gen.PairLower[i]
+			if rng.Intn(2) == 0 {
+				L = gen.PairUpper[i]
+			}
+			lo, hi := L-rune(100+rng.Intn(1400)), L+rune(100+rng.Intn(1400))
+			if gap := gen.PairLower[i] - gen.PairUpper[i]; gap > 1 && rng.Intn(2) == 0 {
+				// wide, but holding only ONE case of the letter: the other must come from the closure
+				k := rune(rng.Intn(int(min(gap-1, 12)) + 1))
+				if rng.Intn(2) == 0 {
+					lo, hi = gen.PairLower[i]-k, gen.PairLower[i]+rune(260+rng.Intn(1200))
+				} else {
+					lo, hi = gen.PairUpper[i]-rune(260+rng.Intn(1200)), gen.PairUpper[i]+k
+				}
+			}
+			if lo < 0x80 {
+				lo = 0x80
+			}
+			if lo <= 0xDFFF && hi >= 0xD800 {
+				return
+			}
+			n.Items = append(n.Items, gen.ClassItem{T: "range", Lo: lo, Hi: hi, Sp: 15})
+			l.Count("classes_with_wide_range", 1)
+		})
 		c := buildC20(root, opts)
 		if c == nil || !r.ClaimPattern(fmt.Sprintf("%d/%s", opts, c.src)) {
 			return
